@@ -58,6 +58,19 @@ def cmp_oriented(x, right_pred):
   return None
 
 
+def module_aliases(tree):
+  """local name -> dotted import path, from the module's import statements (any depth)."""
+  out = {}
+  for n in ast.walk(tree):
+    if isinstance(n, ast.Import):
+      for a in n.names:
+        out[a.asname or a.name.split('.')[0]] = a.name if a.asname else a.name.split('.')[0]
+    elif isinstance(n, ast.ImportFrom) and n.module:
+      for a in n.names:
+        out[a.asname or a.name] = f'{n.module}.{a.name}'
+  return out
+
+
 def strip_casts(t):
   """Remove dtype casts / array wrappers that do not change the value."""
   while True:
@@ -213,6 +226,22 @@ class Decider:
     r = self._decide(c)
     if r is None and self.extra is not None:
       r = self.extra(c)
+      if r is None and c.op == 'cmp' and len(c.args) == 3:
+        # the rule's oracle may know the same comparison in mirrored and / or negated spelling
+        o, a, b = c.args
+        NEG = {'<': '>=', '>=': '<', '>': '<=', '<=': '>', '==': '!=', '!=': '==', 'is': 'is not', 'is not': 'is', 'in': 'not in', 'not in': 'in'}
+        if o in _MIRROR:
+          r = self.extra(T('cmp', _MIRROR[o], b, a))
+        if r is None and o in NEG:
+          r2 = self.extra(T('cmp', NEG[o], a, b))
+          if r2 is None and NEG[o] in _MIRROR:
+            r2 = self.extra(T('cmp', _MIRROR[NEG[o]], b, a))
+          if r2 is not None:
+            r = not r2
+      elif r is None and c.op == 'un' and c.args[0] == 'not':
+        r2 = self(c.args[1])
+        if r2 is not None:
+          r = not r2
     if r is None:
       self.undecided.append(c)
     return r
